@@ -548,13 +548,15 @@ def gen_cases(r, tier, res):
 
 
 def check(res, tier, replay=None):
-    res.cov["rule"] = ("worlds (1-3 looms x 1-3 processes x 1-3 threads, 1-4 CPUs, ranks none/all/some looms) -> "
-                       "10 metamorphic distributions each (app_id/rank on all/first/last/random threads; CPU lists on "
+    res.cov["rule"] = ("fixed corpus (the Lean witnesses of DESIGN 6-B and siblings) + random worlds (1-3 looms x 1-3 "
+                       "processes x 1-3 threads, 1-4 CPUs with arbitrary physical ids, ranks none/all/some looms/tied) -> "
+                       "10-11 metamorphic distributions each (app_id/rank on all/first/last/random threads; CPU lists on "
                        "all/first/last thread, split, shuffled, reversed, duplicated; directory creation order "
-                       "shuffled; relpaths renamed) + every single contradiction of the property + other malformed "
-                       "metadata; bounded-exhaustive pairs of CPU lists for a 2-thread loom. Each trace: real ovniemu "
-                       "(exit status/signal, thread.row, cpu.row, PRV timelines) vs Lean build (asis and fixed) vs "
-                       "rows computed from the world. non-trivial = ovniemu reached system_init")
+                       "shuffled; directories renamed when ranks do not tie) + every single contradiction of the "
+                       "property + other malformed metadata; bounded-exhaustive pairs of CPU lists for a 2-thread loom. "
+                       "Each trace: real ovniemu (exit status/signal, thread.row, cpu.row, PRV timelines) vs Lean build "
+                       "(asis and fixed) vs rows computed in Python from the world. non-trivial = ovniemu reached "
+                       "system_init")
     res.assumptions = ["JSON numbers in the metadata are integers that fit an int (parson, (int) casts modelled as identity)",
                        "uthash iterates in insertion order; HASH_SORT/DL_SORT are stable (modelled by a stable insertion sort)",
                        "nftw enumeration order is arbitrary; trace_load sorts by strcmp(relpath) (modelled)"]
